@@ -315,6 +315,133 @@ def dec(d):
     return "dec " + hexs(d)
 
 
+
+# ---- ownership histories (op `own`): python mirror of the node graph, used by the generator to keep the graphs acyclic
+# (a cycle of counted handles, `a << a`, is a leak by construction of reference counting) and as an independent oracle:
+# here a node is alive iff it is reachable from a handle variable (no counts), the model and the code use counts.
+class OwnMirror:
+    def __init__(self):
+        self.kids, self.par, self.var, self.n = {}, {}, [None] * 4, 0
+
+    def reach(self, roots):
+        seen, work = set(), [r for r in roots if r is not None]
+        while work:
+            x = work.pop()
+            if x in seen:
+                continue
+            seen.add(x)
+            work.extend(self.kids[x])
+        return seen
+
+    def sweep(self):
+        alive = self.reach(self.var)
+        for x in list(self.kids):
+            if x not in alive:
+                for c in self.kids[x]:
+                    if self.par.get(c) == x:
+                        self.par[c] = None
+                del self.kids[x]
+
+    def would_cycle(self, o):
+        if o[0] != "a":
+            return False
+        p, c = self.var[int(o[1]) % 4], self.var[int(o[2]) % 4]
+        return p is not None and c is not None and p in self.reach([c])
+
+    def step(self, o):
+        a = [int(ch) for ch in o[1:]] + [0, 0]
+        x, w = a[0] % 4, a[1] % 4
+        k = o[0]
+        if k == "n":
+            self.kids[self.n], self.par[self.n] = [], None
+            self.var[x] = self.n
+            self.n += 1
+        elif k == "a":
+            p, c = self.var[x], self.var[w]
+            if p is not None and c is not None:
+                self.kids[p].append(c)
+                self.par[c] = p
+        elif k == "r":
+            p = self.var[x]
+            if p is not None and self.kids[p]:
+                j = a[1] % len(self.kids[p])
+                c = self.kids[p][j]
+                if self.par[c] == p:
+                    self.par[c] = None
+                del self.kids[p][j]
+        elif k == "c":
+            p = self.var[x]
+            if p is not None:
+                for c in self.kids[p]:
+                    if self.par[c] == p:
+                        self.par[c] = None
+                self.kids[p] = []
+        elif k == "k":
+            p = self.var[w]
+            if p is not None and self.kids[p]:
+                self.var[x] = self.kids[p][a[2] % len(self.kids[p])]
+        elif k == "s":
+            if self.var[w] is not None:
+                self.var[x] = self.var[w]
+        elif k == "d":
+            self.var[x] = None
+        elif k == "u":
+            if self.var[w] is not None:
+                self.var[x] = self.par[self.var[w]]
+        self.sweep()
+
+    def canon(self, n):
+        for j in range(4):
+            if self.var[j] == n:
+                return str(j)
+        return "x"
+
+    def observe(self):
+        out = []
+        for i in range(4):
+            n = self.var[i]
+            if n is None:
+                out.append("-")
+            else:
+                out.append(self.canon(n) + "/" + ("n" if self.par[n] is None else self.canon(self.par[n])) + "/"
+                           + "".join(self.canon(c) for c in self.kids[n]))
+        return " ".join(out)
+
+
+def own_reference(toks):
+    m, outs = OwnMirror(), []
+    for o in toks:
+        if m.would_cycle(o):
+            return None          # outside the generated class
+        m.step(o)
+        outs.append(m.observe())
+    return "|".join(outs) + " end leak=0 fault=false counts=true"
+
+
+def own_history(rng, n):
+    """mostly meaningful histories: build small forests, share children between two elements, detach, drop containers before
+    contents and the other way round, climb with parent(); some ops on empty variables / out-of-range indices (no-ops)"""
+    m, ops = OwnMirror(), []
+    for _ in range(n):
+        for _try in range(8):
+            r = rng.random()
+            v, w, j = rng.randrange(4), rng.randrange(4), rng.randrange(10)
+            live = [i for i in range(4) if m.var[i] is not None]
+            if live and rng.random() < 0.8:
+                w = rng.choice(live)
+                if rng.random() < 0.5:
+                    v = rng.choice(live)
+            o = ("n%d" % v if r < 0.22 else "a%d%d" % (v, w) if r < 0.47 else "r%d%d" % (w, j) if r < 0.57 else "c%d" % w if r < 0.61
+                 else "k%d%d%d" % (v, w, j) if r < 0.73 else "s%d%d" % (v, w) if r < 0.80 else "d%d" % w if r < 0.90 else "u%d%d" % (v, w))
+            if not m.would_cycle(o):
+                break
+        else:
+            o = "n%d" % v
+        m.step(o)
+        ops.append(o)
+    return "own " + " ".join(ops)
+
+
 def gen(rng, tier):
     quick = tier == "quick"
     cases = []
@@ -449,6 +576,26 @@ def gen(rng, tier):
         cases.append(["enc 0 " + tk, "rt 0 " + tk, "rt 1 " + tk])
     cases.append(["enc 0 T 6162", "rt 0 T 6162", "enc 1 T 26", "rt 1 T 26", "enc 0 E - 0 0", "rt 0 E - 0 0"])
     cases = cases + fmt1 + other
+    # 10. attribute values and text over the alphabet of everything the encoder / decoder treats specially: every single item, every
+    #     ordered pair, and values holding BOTH kinds of quote (a delimiter chosen by content must cope with them); compact and indented
+    special = [b"'", b'"', b"&", b"<", b">", b"=", b"/", b" ", b"\t", b"\n", b"]]>", b"--", b"&amp;", b"&apos;", b"&#39;", b"&#x27;"]
+    vals = special + [a + b for a in special for b in special] + [b"it's \"quoted\"", b"\"' z=\"1", b"'\" z='1", b"a'b\"c'd\"e",
+                                                                 b"\"'", b"'\"", b"x=\"1\" y='2'"]
+    grp = []
+    for i, v in enumerate(vals):
+        t = ("E", b"a", [(b"k", v), (b"z", vals[(i * 7 + 3) % len(vals)])], [("E", b"b", [(b"q", v)], [("T", v)])])
+        tk = " ".join(tokens(t))
+        grp += ["rt 0 " + tk, "rt 1 " + tk]
+        if len(grp) >= 16:
+            cases.append(grp)
+            grp = []
+    if grp:
+        cases.append(grp)
+    # 9. ownership histories (extension round): DOM mutators over four handle variables, under ASan/LSan
+    for i in range(300 if quick else 20000):
+        cases.append([own_history(rng, rng.choice([3, 6, 12, 25, 40])) for _ in range(2)])
+    cases.append(["own n0 n1 a01 d0", "own n0 n1 a01 d1 k100 u21 d0", "own n0 n1 n2 a01 a21 d0 u31 d2", "own n0 n1 a01 a01 r00 u21 r00 u21",
+                  "own n0 n1 n2 a12 a01 k301 d0 d1 u23", "own n0 n1 a01 c0 u21", "own d0 a01 r00 c0 k010 s01 u01 n0 u10"])
     # 8. deeply nested documents built inside the harness / driver (kind 0: closed, 3: closed around the text "x" — text() walks the whole chain, 1: closed then a mismatched end tag so that
     #    the tree is destroyed inside decode, 2: unclosed)
     for n in ([0, 1, 2, 12, 13, 1000, 300000] if quick else [0, 1, 2, 12, 13, 1000, 50000, 300000, 1000000]):
@@ -669,6 +816,8 @@ def reference(line):
     try:
         if t[0] == "dec":
             return ref_dec(unhex(t[1]))
+        if t[0] == "own":
+            return own_reference(t[1:])
         if t[0] == "mut":
             tr = ref_tree(unhex(t[1]))
             if tr is None:
@@ -741,6 +890,12 @@ def oracle(case, impl, model, crash):
             if exp is not None and o != exp:
                 return True, ("decode(encode(t)) is not t up to merging adjacent text and dropping blank text "
                               "(expected %s, got %s)" % (exp[:120], o[:120]))
+    for l, o in zip(case, outs):
+        if l.startswith("own "):
+            exp = reference(l)   # reachability-based mirror (no counts); None if the history builds a cycle
+            if exp is not None and o != exp:
+                return True, ("after a history of DOM mutators and handle drops the handles do not show the expected graph (a parent() that "
+                              "is not a live container of the node, a lost or extra child): expected %s, got %s" % (exp[:160], o[:160]))
     return False, ("the implementation no longer behaves as the transcription the theorems are about (outputs differ), but the "
                    "differing outputs do not by themselves contradict the property's clauses")
 
